@@ -89,5 +89,6 @@ func zzSanityChain() *BlockChain {
 
 // zzPool: outpoints the block's transactions may spend.
 func zzInput(name string) *common2.Input {
-	return &common2.Input{Previous: common2.OutPoint{TxID: common.Uint256{0xEE, byte(nd.Choose(name+"_txid", 2))}, Index: uint16(nd.Choose(name+"_index", 2))}}
+	return &common2.Input{Previous: common2.OutPoint{TxID: common.Uint256{0xEE, byte(nd.Choose(name+"_txid", 2))}, Index: uint16(nd.Choose(name+"_index", 2))},
+		Sequence: uint32(nd.Choose(name+"_sequence", 2))} // the sequence number is not part of the outpoint
 }
